@@ -195,6 +195,7 @@ def _k6(ctx, R, cc):
     R.rule("K6", "counterpart lookups stay inside the counterpart container of the same level")
     n = 0
     for mname, f in sorted(cc.methods.items()):
+        f = inlined_view(ctx.P, f)  # a shared walk-and-look-up helper is read in place, with the finder it was handed
         S = Sides(f)
         for lp in walk_local(f.node):
             if not (isinstance(lp, ast.For) and isinstance(lp.iter, ast.Attribute) and S.of(lp.iter.value) == "O"):
